@@ -17,6 +17,9 @@ EX = 'vibesql_executor::'
 
 # compensation idiom of the single-row INSERT path: delete the row just inserted (+ index rebuild)
 COMPENSATION = {M.T + 'delete_where'}
+# firing triggers runs nested statements: their effects are changes of this statement too
+TRIGGER_CALLS = {EX + 'trigger_execution::TriggerFirer::' + n for n in
+                 ('execute_before_triggers', 'execute_after_triggers', 'execute_before_statement_triggers', 'execute_after_statement_triggers')}
 
 TABLE_LOOKUPS = ('none:' + M.D + 'get_table', 'none:' + M.D + 'get_table_mut',
                  'none:vibesql_catalog::store::tables::<impl vibesql_catalog::store::Catalog>::get_table')
@@ -25,9 +28,12 @@ _SAME = ('every iteration assigns the same NULL/default/new key to the same colu
          'fails on the first row (nothing changed yet) or on none')
 # reviewed infeasible triples: (function, mutating callee, origin) -> reason
 EXCEPTIONS = {
-    (EX + 'delete::integrity::set_null', M.T + 'update_row', 'later-iteration'): _SAME,
-    (EX + 'delete::integrity::set_default', M.T + 'update_row', 'later-iteration'): _SAME,
-    (EX + 'update::foreign_keys::ForeignKeyValidator::check_no_child_references', M.T + 'update_row', 'later-iteration'): _SAME,
+    (EX + 'delete::integrity::set_null', M.T + 'update_row', 'later-iteration:' + M.T + 'update_row'): _SAME,
+    (EX + 'delete::integrity::set_default', M.T + 'update_row', 'later-iteration:' + M.T + 'update_row'): _SAME,
+    (EX + 'update::foreign_keys::ForeignKeyValidator::check_no_child_references', M.T + 'update_row', 'later-iteration:' + M.T + 'update_row'): _SAME,
+    (M.OPS + 'insert_rows_batch', M.T + 'insert', 'later-iteration:' + M.T + 'insert'):
+        'the executor coerces and validates every row of the batch (RowValidator: column count, types, NOT NULL, PK/UNIQUE) before '
+        'calling insert_rows_batch; Table::insert re-checks the same conditions, so it cannot fail on a later row after accepting an earlier one',
     (EX + 'insert::execution::execute_insert_internal', M.T + 'delete_where', 'Err:' + EX + 'trigger_execution::TriggerFirer::execute_after_triggers'):
         'this delete_where IS the compensation (it removes the row just inserted); the Err returned after it is the original '
         'AFTER-trigger error being re-thrown once the insert was undone',
@@ -89,9 +95,11 @@ def run(ctx):
     nsites = 0
     for p in sorted(reach):
         f = prog.fns[p]
-        if f.unit != 'vibesql_executor' or M.in_impl_table(f) or p in cut:
+        if f.unit not in ('vibesql_executor', 'vibesql_storage') or M.in_impl_table(f) or p in cut:
             continue
-        calls = [(i, t) for i, t in f.calls() if callee_path(t) in mutating]
+        if f.nice in (M.D + 'undo_change', M.D + 'rollback_to_savepoint'):
+            continue      # the undo machinery itself
+        calls = [(i, t) for i, t in f.calls() if callee_path(t) in mutating or (callee_name(t) or '') in TRIGGER_CALLS]
         if not calls:
             continue
         comp = {i for i, t in f.calls() if callee_name(t) in COMPENSATION}
@@ -122,18 +130,18 @@ def run(ctx):
                 errs_a = []
             for e in errs_a:
                 found.setdefault(err_origin(f, e, defs), f.blocks[e]['t']['l'])
-            if set(errs_f) - set(errs_a) or (i in {0} and False):
-                found.setdefault('later-iteration', t['l'])
+            for e in sorted(set(errs_f) - set(errs_a)):
+                found.setdefault('later-iteration:' + err_origin(f, e, defs), f.blocks[e]['t']['l'])
             for org, line in sorted(found.items()):
                 key = f'{f.nice}/{cn}/{org}'
-                if org in TABLE_LOOKUPS and lookups_dischargeable:
+                if (org in TABLE_LOOKUPS or org.replace('later-iteration:', '') in TABLE_LOOKUPS) and lookups_dischargeable:
                     ctx.exempt(key, 'lookup of a table the statement already resolved; nothing between can drop it '
                                '(trigger statements reach no DDL: checked)')
                     continue
                 if (f.nice, cn, org) in EXCEPTIONS:
                     ctx.exempt(key, EXCEPTIONS[(f.nice, cn, org)])
                     continue
-                what = ('a later iteration can fail after an earlier one changed rows' if org == 'later-iteration'
+                what = (f'a later iteration can fail in {org.split(":",1)[1]} after an earlier one changed rows' if org.startswith('later-iteration:')
                         else f'error return from {org} (line {line}) is reachable')
                 ctx.finding(key, f'{f.nice}: after {cn.rsplit("::",1)[1]} succeeded, {what} with no undo', f'{f.file}:{line}')
     ctx.floor('C11 calls to row-mutating functions in DML-reachable executor code', nsites, 20)
